@@ -136,6 +136,50 @@ def ref_rowcount_groups(tabs, nrows, table, group_by):
     return rel.SideResult([], [[]])
 
 
+# ------------------------------------------------------------------------------------------------------------------ C17 record layouts
+def unpivot_tables(tabs, nrows, src, dst, layout, perm=None, col_order=None, symbolic=True):
+    """reference rows -> blocks (pure data movement, works on Cells and on python values):
+    layout = {"record_keys": [...], "key_cols": [...], "control": {col: [per control row entries]}} ; control row i gives, for every
+    record, one block row (record keys, key values of row i, value columns taken from the row-form columns named in row i)"""
+    const = (lambda s: C.lit(s)) if symbolic else (lambda s: s)
+    rk, kc = layout["record_keys"], layout["key_cols"]
+    control = layout["control"]
+    vcols = [c for c in control if c not in kc]
+    nctl = len(control[kc[0]])
+    n = nrows[src]
+    out = {c: [] for c in rk + kc + vcols}
+    for r in range(n):
+        for i in range(nctl):
+            for c in rk:
+                out[c].append(tabs[src][c][r])
+            for c in kc:
+                out[c].append(const(control[c][i]))
+            for c in vcols:
+                out[c].append(tabs[src][control[c][i]][r])
+    m = n * nctl
+    if perm is not None:
+        p = [q for q in perm if q < m] + [q for q in range(m) if q not in perm]
+        out = {c: [v[q] for q in p] for c, v in out.items()}
+    if col_order is not None:
+        out = {c: out[c] for c in col_order if c in out}
+    t2 = {k: v for k, v in tabs.items() if k != dst}
+    t2[dst] = out
+    n2 = dict(nrows)
+    n2[dst] = m
+    return t2, n2
+
+
+def ref_blocks(tabs, nrows, src, layout):
+    t2, n2 = unpivot_tables(tabs, nrows, src, "__blk__", layout)
+    cols = list(t2["__blk__"].keys())
+    rows = [[t2["__blk__"][c][i] for c in cols] for i in range(n2["__blk__"])]
+    return rel.SideResult(cols, rows)
+
+
+def ref_rows(tabs, nrows, src, cols):
+    return rel.SideResult(list(cols), [[tabs[src][c][i] for c in cols] for i in range(nrows[src])])
+
+
 # ------------------------------------------------------------------------------------------------------------------ C21 helpers
 def ref_rank_to_average(tabs, nrows, table, order_by, partition_by, rank_col):
     """docstring: the rank of each item is the average of the positions of all items with the same order position, within its partition:
